@@ -68,6 +68,11 @@ def ctx(eng, pclasses, kind, **members):
 
 
 def call(eng, listener, method, c):
+    if ("pymoca.parser:ASTListener." + method) not in eng.source.extracted:
+        try:
+            eng.find_function(PARSER, "ASTListener." + method)      # records file / lines / hash of the method under contract
+        except Unsupported:
+            pass
     return eng.call(eng.getattr(listener, method, None, None), [c], {})
 
 
